@@ -153,6 +153,13 @@ def tool_cases(tier, seed, work, tdir):
                 data = filler[:edge - j] + SPLIT[:k] + b'!' + filler[:700] + SPLIT + filler[:40]
                 res.append(run_one('false-start%d/%d@%d' % (j, k, edge), data, ['-s', SPLIT.decode(), '-m']))
                 res.append(run_one('false-start%d/%d@%d' % (j, k, edge), data, ['-s', SPLIT.decode()]))
+    # split strings that overlap themselves (a failed partial match leaves a shorter one alive), the false start straddling a block edge
+    for sp, txt in ((b'aab', b'aaab'), (b'--sep', b'---sep'), (b'--sep', b'----sep'), (b'abab!', b'ababab!'), (b'xxy', b'xxxxy')):
+        for o in list(range(blk - len(txt) - 1, blk + 2)) + [2 * blk - 2, 2 * blk - 1]:
+            filler = bytes(rnd.choice(b'cdefghij \n') for _ in range(3 * blk))
+            data = filler[:o] + txt + filler[o:o + 300] + sp + filler[:50] + sp[:2]
+            for zargs in (['-s', sp.decode()], ['-s', sp.decode(), '-m']):
+                res.append(run_one('self-overlap-%s@%d' % (sp.decode(), o), data, zargs))
     # option combinations
     data = FG.text(rnd, 100000)
     for zargs in ([], ['-m'], ['--compression-format', 'none'], ['-u'], ['-u', '--chunk-hash-type', 'sha256'], ['-m', '-s', 'zchunk'],
